@@ -17,7 +17,7 @@ from harness import c19lib as L
 THEOREMS = ["C19_trace_partial", "C19_trace_refuted", "C19_codec_union_refuted", "C19_mixin_once", "C19_context",
             "C19_union_context_refuted", "C19_de_trace_partial", "C19_de_post_once", "C19_codec_subclass_refuted",
             "C19_subclass_context_refuted", "C19_disc_config_dispatch", "C19_disc_annotated_dispatch",
-            "C19_disc_no_variant"]
+            "C19_disc_union_dispatch", "C19_disc_no_variant"]
 
 # ---------------------------------------------------------------------------
 # generators
@@ -303,7 +303,7 @@ def gen_hier_schema(rng):
         classes[1]["disc"], classes[1]["tag"] = "nofield", False
 
     def base_ty():
-        if not classes[1].get("disc") and rng.random() < 0.25:
+        if not classes[1].get("disc") and rng.random() < 0.4:
             # a discriminated union: Annotated[Union[Base, Leaf], Discriminator(...)]
             wf = rng.random() < 0.6 or kind not in NO_FORMAT_METHOD
             sb, sp_ = rng.choice([(True, False), (True, True), (False, True)])
@@ -667,7 +667,9 @@ def run(ctx: vlib.Ctx):
         "List,Tuple,Dict / Optional / Union of dataclasses, recursion spelled by name or typing.Self; PEP 604, builtin/abc "
         "generics, Annotated; one type per field name so that look-alike classes arise); (2) context/flag chains of depth 3-5; "
         "(3) class hierarchies: subclass instances at base-typed positions, class-level (Config) discriminators with/without "
-        "field, Annotated discriminators (field / no field / include_supertypes), tags present or missing; (4) unions whose "
+        "field, with variant_tagger_fn, nested (a variant that is itself a dispatcher), Annotated discriminators over a class "
+        "(field / no field / include_supertypes) and over a Union (include_subtypes and/or include_supertypes), tags present "
+        "or missing; (4) unions whose "
         "members differ in their keyword-adding options; (5) fixed cases for every known finding - x mixin kind "
         "(dict/json/orjson/msgpack/yaml/toml/plain) x hooks returning their argument or a new object x random value tree "
         "(<= 45 instances) x every entry point (mixin methods with/without context= and dialect=, 6 codecs with root shapes "
